@@ -20,7 +20,7 @@ import (
 
 type cprog struct {
 	Unary bool
-	Steps string // S send, R recv, C closesend
+	Steps string // S send, R recv, C closesend, X recv of a message that fails to decode
 	End   string // close | cancel | drain
 }
 
@@ -32,7 +32,7 @@ func (p cprog) String() string {
 }
 
 type hprog struct {
-	Steps string // S send, R recv
+	Steps string // S send, R recv, X recv of a message that fails to decode
 	Err   bool
 }
 
@@ -61,6 +61,12 @@ func runHandler(h hprog) wl.HandlerFunc {
 			case 'R':
 				var in []byte
 				if err := stream.MsgRecv(&in, enc.Bytes{}); err != nil {
+					return err
+				}
+			case 'X':
+				// the application's decoder rejects the message: the RPC ends with that error
+				var in []byte
+				if err := stream.MsgRecv(&in, enc.FailUnmarshal{}); err != nil {
 					return err
 				}
 			}
@@ -110,6 +116,9 @@ func workload(env *wl.Env, c cprog) {
 			failed = stream.MsgRecv(&in, enc.Bytes{}) != nil
 		case 'C':
 			failed = stream.CloseSend() != nil
+		case 'X':
+			var in []byte
+			failed = stream.MsgRecv(&in, enc.FailUnmarshal{}) != nil
 		}
 	}
 	switch c.End {
@@ -356,6 +365,28 @@ func basePlans(tier string) []mc.Plan {
 						ps = append(ps, mc.Plan{Scen: scenario(cfg, c, h, v), Bounds: bounds, Split: len(bounds) > 2})
 					}
 				}
+			}
+		}
+	}
+	// a message that the receiving application fails to decode, on either side, then the RPC ends
+	for _, soft := range []bool{true, false} {
+		cfg := wl.Config{Soft: soft, Pipe: tr.Options{Cap: -1}}
+		type pair struct {
+			c cprog
+			h hprog
+		}
+		pairs := []pair{
+			{cprog{Unary: true, End: "close"}, hprog{Steps: "X"}},
+			{cprog{Steps: "S", End: "close"}, hprog{Steps: "X"}},
+			{cprog{Steps: "SS", End: "drain"}, hprog{Steps: "X"}},
+			{cprog{Steps: "SS", End: "close"}, hprog{Steps: "RX"}},
+			{cprog{Steps: "SX", End: "close"}, hprog{Steps: "RS"}},
+			{cprog{Steps: "SX", End: "drain"}, hprog{Steps: "RSS"}},
+			{cprog{Steps: "X", End: "cancel"}, hprog{Steps: "SS"}},
+		}
+		for _, pr := range pairs {
+			for _, v := range []string{"A", "B"} {
+				ps = append(ps, mc.Plan{Scen: scenario(cfg, pr.c, pr.h, v), Bounds: []int{0, 1}})
 			}
 		}
 	}
